@@ -144,7 +144,7 @@ InitW(hasPw, pw, srvPw, hasSrvPw, auth, pic) ==
     reqs |-> <<>>, curList |-> <<>>,
     alts |-> {[ow |-> <<>>, lx |-> 0]}, lxRep |-> 0, tmo |-> FALSE,
     fault |-> "", poison |-> -1, lostAt |-> -1, obs |-> {}, surfaced |-> FALSE,
-    nClosingEv |-> 0, evEnded |-> FALSE, evAfterEnd |-> FALSE, evAfterClosing |-> FALSE, evDropped |-> FALSE,
+    nClosingEv |-> 0, evEnded |-> FALSE, evAfterEnd |-> FALSE, evAfterClosing |-> FALSE, evDropped |-> FALSE, evLazy |-> FALSE,
     handles |-> 0, ioDropped |-> FALSE, connected |-> "", nconf |-> 0, desync |-> FALSE, wst |-> FALSE,
     art |-> <<>>,
     viol |-> <<>> ]
@@ -445,7 +445,11 @@ MinLx(alts) == CHOOSE x \in {a.lx : a \in alts} : \A y \in {a.lx : a \in alts} :
 \* the user dropped the event receiver (allowed): nothing is owed to it any more, nothing about the event stream is observable
 WEventsDropped(w) == [w EXCEPT !.evDropped = TRUE]
 NoOwed(w) == [w EXCEPT !.alts = {[ow |-> <<>>, lx |-> a.lx] : a \in @}]
+\* evLazy: the application keeps the receiver but polls it only at the end of the run - nothing is due before that
 WQuiescent(w0) ==
+  IF w0.evLazy THEN
+     [Chk(w0, ~(w0.tmo /\ AllSeen(w0) /\ w0.rd = w0.wr /\ w0.fault = "" /\ w0.handles > 0) \/ w0.mode = "idle", "C05", "no idle after the re-idle delay expired") EXCEPT !.tmo = FALSE]
+  ELSE
   LET w == IF w0.evDropped THEN NoOwed(w0) ELSE w0
       Bad(a) == \E k \in 1..Len(a.ow) : IsDue(w, a.ow[k]) /\ ~a.ow[k].exc
       good == {a \in w.alts : ~Bad(a)}
